@@ -89,6 +89,9 @@ type executor struct {
 	crashed bool
 	frozen  *frozen
 	quiet   bool
+	gran    bool     // probe persistence calls made inside cache operations for a free cache mutex
+	granBusy bool
+	granLog []string
 	events  []Ev
 	draws   uint64
 	seed    uint64
@@ -325,8 +328,52 @@ func (x *executor) storedRec(id string) (Rec, error) {
 	return r, err
 }
 
+// cacheOpOnStack names the cache operation the current persistence call is
+// made from ("" if none).
+func cacheOpOnStack() string {
+	pcs := make([]uintptr, 32)
+	n := runtime.Callers(3, pcs)
+	frames := runtime.CallersFrames(pcs[:n])
+	for {
+		f, more := frames.Next()
+		for _, fn := range []string{"(*cache).compact", "(*cache).Get", "(*cache).Set", "(*cache).Delete", "sessions.PurgeSessions"} {
+			if strings.HasSuffix(f.Function, fn) {
+				return fn
+			}
+		}
+		if !more {
+			return ""
+		}
+	}
+}
+
+// granProbe: the model executes cache operations atomically, which is adequate
+// only while every persistence call inside them is made under the cache mutex.
+// When such a call finds the mutex free, what a concurrent request could do at
+// this very point is done inline: a Destroy of the session being loaded, or a
+// look-up of the session being saved or deleted.
+func (x *executor) granProbe(op, id string) {
+	if !x.gran || x.quiet || x.granBusy {
+		return
+	}
+	fn := cacheOpOnStack()
+	if fn == "" || !sessions.VerifCacheLockFree() {
+		return
+	}
+	x.granLog = append(x.granLog, fmt.Sprintf("Persistence.%s(%v) is called from %s while the cache mutex is free", op, x.keyOf(id), fn))
+	x.granBusy = true
+	defer func() { x.granBusy = false }()
+	if op == "LoadSession" {
+		sessions.VerifCacheDelete(id)
+	} else {
+		sessions.VerifCacheGet(id)
+	}
+}
+
 func (x *executor) LoadSession(id string) (*sessions.Session, error) {
 	b, ok, err := x.loadBytes(id)
+	// (the store has been read; the cache insertion has not happened yet)
+	x.granProbe("LoadSession", id)
 	if err != nil || !ok {
 		return nil, err
 	}
@@ -396,6 +443,7 @@ func saveOrigin() string {
 }
 
 func (x *executor) SaveSession(id string, s *sessions.Session) error {
+	x.granProbe("SaveSession", id)
 	x.mu.Lock()
 	defer x.mu.Unlock()
 	fail := x.persOp()
@@ -435,6 +483,7 @@ func (x *executor) SaveSession(id string, s *sessions.Session) error {
 }
 
 func (x *executor) DeleteSession(id string) error {
+	x.granProbe("DeleteSession", id)
 	x.mu.Lock()
 	defer x.mu.Unlock()
 	fail := x.persOp()
